@@ -467,7 +467,7 @@ fn compile(p: &Program, d: Dialect) -> Result<V, (String, String)> {
 
 pub fn decode_bad(bytes: &[u8], tier: Tier) -> Option<Program> {
     let case = decode_case(bytes, tier, None);
-    let skip = bytes.len().saturating_sub(6);
+    let skip = bytes.len().saturating_sub(48);
     let mut c = Choices::new(&bytes[skip..]);
     let kind = c.weighted(&[5, 3, 3, 3]);
     inject(&mut c, &case.prog, kind).map(|x| x.0)
@@ -574,7 +574,7 @@ impl Prop for C10Prop {
         if case.collision {
             return Verdict::Skip("integer literal spells a name (generator precondition)");
         }
-        let skip = bytes.len().saturating_sub(6);
+        let skip = bytes.len().saturating_sub(48);
         let mut c = Choices::new(&bytes[skip..]);
         let kind = c.weighted(&[5, 3, 3, 3]);
         let Some((bad, defect)) = inject(&mut c, &case.prog, kind) else {
@@ -641,7 +641,7 @@ impl Prop for C10Prop {
     fn describe(&self, _sec: &str, input: &Input, tier: Tier) -> Option<Value> {
         let Input::Bytes(bytes) = input else { return None };
         let case = decode_case(bytes, tier, None);
-        let skip = bytes.len().saturating_sub(6);
+        let skip = bytes.len().saturating_sub(48);
         let mut c = Choices::new(&bytes[skip..]);
         let kind = c.weighted(&[5, 3, 3, 3]);
         let (bad, defect) = inject(&mut c, &case.prog, kind)?;
